@@ -26,6 +26,15 @@ func VH_TypeRoundTrip() {
 	vAssert(back == t, "C20/type-name-maps-to-other-number")
 	txt, err := t.MarshalText()
 	vAssert(err == nil, "C20/marshal-text-failed")
+	// the text of one type is still that type's text after other types have been marshalled, and the
+	// name of one type after other names have been produced (results are values, not views of a scratch buffer)
+	for _, o := range []AuditMessageType{AUDIT_PATH, AUDIT_SYSCALL, AuditMessageType(7)} {
+		otxt, oerr := o.MarshalText()
+		_ = o.String()
+		var ou AuditMessageType
+		vAssert(oerr == nil && ou.UnmarshalText(otxt) == nil && ou == o, "C20/text-marshalling-not-inverse")
+	}
+	vAssert(name == t.String(), "C20/type-name-changed-by-later-calls")
 	var u AuditMessageType
 	err = u.UnmarshalText(txt)
 	vAssert(err == nil && u == t, "C20/text-marshalling-not-inverse")
